@@ -404,6 +404,18 @@ func forged(c *common.Ctx, r *common.Rand) error {
 		afterSt := snapshotState(p.Dir, p.Store)
 		c.Evaluations++
 		c.Distinct("forged-tx:" + t.name)
+		// the endpoint's rule on the model (files whose header and body are well formed)
+		if len(t.body) >= ltx.HeaderSize && t.name != "corrupt-body" && t.name != "truncated" && t.name != "garbage" {
+			var hdr ltx.Header
+			if hdr.UnmarshalBinary(t.body[:ltx.HeaderSize]) == nil {
+				acc := uint64(0)
+				if code >= 200 && code < 300 {
+					acc = 1
+				}
+				cfF := c.Cases("cases_c06f", "Require Import LF.Model.PageDB.\nLocal Open Scope N_scope.", "N * N * N * N * N", "mismatches_forward")
+				cfF.Add(fmt.Sprintf("(%d, %d, %d, %d, %d)", before.pos.TXID, before.pos.Chk, uint64(hdr.MinTXID), uint64(hdr.PreApplyChecksum), acc), map[string]any{"kind": "forged-tx", "name": t.name})
+			}
+		}
 		if ex := p.Exits(); len(ex) > 0 {
 			c.Violate("C06:forged-tx:exit:"+t.name, fmt.Sprintf("forged transaction file (%s) on /tx made the primary call Exit(%v)", t.name, ex), map[string]any{"kind": "forged-tx", "name": t.name})
 			return nil
@@ -427,6 +439,12 @@ func forged(c *common.Ctx, r *common.Rand) error {
 			resp.Body.Close()
 		}
 		c.Evaluations++
+		cfF := c.Cases("cases_c06f", "Require Import LF.Model.PageDB.\nLocal Open Scope N_scope.", "N * N * N * N * N", "mismatches_forward")
+		okN := uint64(0)
+		if code == 200 {
+			okN = 1
+		}
+		cfF.Add(fmt.Sprintf("(%d, %d, %d, %d, %d)", pos.TXID, pos.Chk, pos.TXID+1, pos.Chk, okN), map[string]any{"kind": "forged-tx", "name": "control"})
 		if np := dbPos(p.Store); code != 200 || np.TXID != pos.TXID+1 || np.Chk != after.Checksum() {
 			c.Violate("C06:forged-tx:control", fmt.Sprintf("a well-formed forwarded file from the lock holder answered %d and left the position at (%d,%016x), want (%d,%016x)", code, np.TXID, np.Chk, pos.TXID+1, after.Checksum()), map[string]any{"kind": "forged-tx", "name": "control"})
 		}
